@@ -765,7 +765,12 @@ def _check(case, ctx, inst):
         route("serializer", S, S2, okx)
         # (4) SOLUTION_MODIFY with totals, total_h, total_o, cb only (the solver then starts from the placeholder's
         # pure-water estimates); replica: the same plus the starting estimates of the dump
-        if P1:
+        if P1 and "KINETICS" in kinds:
+            # with kinetic reactants the follow-up integrates over time; started from the placeholder's pure-water
+            # estimates every one of the integrator's equilibrium calls may run through all convergence fall-backs
+            # (seen: > 10 min for one case) -> this route is only taken for cells without kinetics
+            classes.append("followup_solution_modify_skipped_kinetics")
+        elif P1:
             E, E2 = inst(), inst()
             place, restore = modify_input(D1, P1)
             place2, restore2 = modify_input(D1, P1, estimates=True)
